@@ -265,3 +265,75 @@ Theorem C12_handover_keeping_parked_diffs_refuted :
     ~ mid_burst head_R s' l vals.
 Proof. exact hand_over_keeping_ready_refuted. Qed.
 Print Assumptions C12_handover_keeping_parked_diffs_refuted.
+
+(* ---- the stack across all three crates (FullStack.v): vector + observable limit + adapter ----
+   for any adapter with correct step / parameter functions, created from the observable's current
+   value on a fresh subscriber of the vector: in every history of calls on both sides and polls,
+   nothing panics, every item handed out is applicable to the consumer's view, and the adapter
+   always stands for the replica of its vector subscriber, the consumer being behind by exactly
+   the parked diffs *)
+From EB Require Import Obs FullStack FullStackFacts.
+
+Theorem C12_full_stack_never_panics :
+  forall (A St : Type) (veq heq : nat -> nat -> bool) (vdefault : nat)
+         (on_diff : St -> diff A -> outcome (St * list (diff A)))
+         (on_param : St -> nat -> St * option (list (diff A)))
+         (init : nat -> list A -> St * list A)
+         (R : St -> list A -> list A -> Prop) (param : St -> nat),
+    (forall n l, R (fst (init n l)) l (snd (init n l)) /\ param (fst (init n l)) = n) ->
+    step_ok on_diff R ->
+    (forall st d st' outs, on_diff st d = Ok (st', outs) -> param st' = param st) ->
+    param_ok on_param R ->
+    (forall st n, param (fst (on_param st n)) = n) ->
+    (forall st n, snd (on_param st n) <> Some []) ->
+    forall capacity okd limit0 evs,
+      frun veq heq vdefault on_diff on_param init (fs_init capacity okd limit0) evs <> RPanic.
+Proof. exact (@full_never_panics). Qed.
+Print Assumptions C12_full_stack_never_panics.
+
+Theorem C12_full_stack_invariant :
+  forall (A St : Type) (veq heq : nat -> nat -> bool) (vdefault : nat)
+         (on_diff : St -> diff A -> outcome (St * list (diff A)))
+         (on_param : St -> nat -> St * option (list (diff A)))
+         (init : nat -> list A -> St * list A)
+         (R : St -> list A -> list A -> Prop) (param : St -> nat),
+    (forall n l, R (fst (init n l)) l (snd (init n l)) /\ param (fst (init n l)) = n) ->
+    step_ok on_diff R ->
+    (forall st d st' outs, on_diff st d = Ok (st', outs) -> param st' = param st) ->
+    param_ok on_param R ->
+    (forall st n, param (fst (on_param st n)) = n) ->
+    (forall st n, snd (on_param st n) <> Some []) ->
+    forall capacity okd limit0 evs s,
+      frun veq heq vdefault on_diff on_param init (fs_init capacity okd limit0) evs = ROk s ->
+      f_ok s = true /\
+      match f_ad s with
+      | None => True
+      | Some a =>
+          exists gh v', nth_error (g_gh (f_g s)) (a_k a) = Some gh /\
+                        apply_all_ok (u_ready (a_u a)) (a_view a) = Some v' /\
+                        R (u_st (a_u a)) (gh_replica gh) v'
+      end.
+Proof. exact (@full_invariant). Qed.
+Print Assumptions C12_full_stack_invariant.
+
+Theorem C12_full_stack_view_at_pending :
+  forall (A St : Type) (veq heq : nat -> nat -> bool) (vdefault : nat)
+         (on_diff : St -> diff A -> outcome (St * list (diff A)))
+         (on_param : St -> nat -> St * option (list (diff A)))
+         (init : nat -> list A -> St * list A)
+         (R : St -> list A -> list A -> Prop) (param : St -> nat),
+    (forall n l, R (fst (init n l)) l (snd (init n l)) /\ param (fst (init n l)) = n) ->
+    step_ok on_diff R ->
+    (forall st d st' outs, on_diff st d = Ok (st', outs) -> param st' = param st) ->
+    param_ok on_param R ->
+    (forall st n, param (fst (on_param st n)) = n) ->
+    (forall st n, snd (on_param st n) <> Some []) ->
+    forall capacity okd limit0 evs s fuel s',
+      frun veq heq vdefault on_diff on_param init (fs_init capacity okd limit0) evs = ROk s ->
+      fstep veq heq vdefault on_diff on_param init s (FPoll fuel) = ROk (s', FAnswer Pending) ->
+      no_silent evs ->
+      exists a, f_ad s' = Some a /\ u_ready (a_u a) = [] /\
+        R (u_st (a_u a)) (values (g_o (f_g s'))) (a_view a) /\
+        (ver (f_lim s') <> 0 -> param (u_st (a_u a)) = val (f_lim s')).
+Proof. exact (@full_view_at_pending). Qed.
+Print Assumptions C12_full_stack_view_at_pending.
